@@ -50,10 +50,12 @@ pub struct World {
     pub info: WorldInfo,
     pub rich: String,
     pub poor: String,
+    pub third: String,
     pub a: String,
     pub b: String,
     pub c: String,
     pub candidates: Vec<String>,
+    pub rich_amount: u128,
     obs_cache: HashMap<u128, MState>,
     pub obs_cache_hits: u64,
     pub obs_cache_misses: u64,
@@ -122,16 +124,24 @@ pub fn from_observed(obs: &MState, staking_module: &str) -> MState {
 
 impl World {
     pub fn new() -> World {
+        Self::new_with(20)
+    }
+
+    /// `rich_amount`: initial balance of the rich account in each denomination (0 = empty ledger).
+    pub fn new_with(rich_amount: u128) -> World {
         let api = MockApi::default();
         let rich = api.addr_make("rich").into_string();
         let poor = api.addr_make("poor").into_string();
+        let third = api.addr_make("third").into_string();
         let block = mock_env().block;
         let rich_addr = Addr::unchecked(&rich);
         let mut app: TApp = AppBuilder::new().with_storage(SnapStorage::new()).build(|router, api, storage| {
-            router
-                .bank
-                .init_balance(storage, &rich_addr, vec![coin(20, "x"), coin(20, "y"), coin(20, "TOKEN")])
-                .unwrap();
+            if rich_amount > 0 {
+                router
+                    .bank
+                    .init_balance(storage, &rich_addr, vec![coin(rich_amount, "x"), coin(rich_amount, "y"), coin(rich_amount, "TOKEN")])
+                    .unwrap();
+            }
             router.staking.setup(storage, StakingInfo { bonded_denom: "TOKEN".into(), unbonding_time: 60, apr: Decimal::percent(10) }).unwrap();
             router
                 .staking
@@ -163,16 +173,16 @@ impl World {
             ring: vec![a.clone(), b.clone(), c.clone()],
             accounts: vec![rich.clone()],
             ext: false,
-            all_principals: vec![rich.clone(), poor.clone(), a.clone(), b.clone(), c.clone()],
+            all_principals: vec![rich.clone(), poor.clone(), third.clone(), a.clone(), b.clone(), c.clone()],
             delegator: rich.clone(),
             validator: VALIDATOR.to_string(),
             codes: vec![1, 2, 3],
         };
-        let mut candidates = vec![rich.clone(), poor.clone()];
+        let mut candidates = vec![rich.clone(), poor.clone(), third.clone()];
         candidates.extend(info.addr_table.values().cloned());
         candidates.sort();
         candidates.dedup();
-        World { app, info, rich, poor, a, b, c, candidates, obs_cache: HashMap::new(), obs_cache_hits: 0, obs_cache_misses: 0 }
+        World { app, info, rich, poor, third, a, b, c, candidates, rich_amount, obs_cache: HashMap::new(), obs_cache_hits: 0, obs_cache_misses: 0 }
     }
 
     pub fn set_ext(&mut self, ext: bool) {
@@ -185,9 +195,11 @@ impl World {
         let mut m = MState::default();
         let mut bal = BTreeMap::new();
         for d in DENOMS {
-            bal.insert(d.to_string(), 20u128);
+            bal.insert(d.to_string(), self.rich_amount);
         }
-        m.bank.insert(self.rich.clone(), bal);
+        if self.rich_amount > 0 {
+            m.bank.insert(self.rich.clone(), bal);
+        }
         StartState { name: "pre-genesis".into(), storage: self.app.storage().clone(), block: self.app.block_info(), mstate: m }
     }
 
@@ -362,6 +374,15 @@ impl World {
                             last
                         })
                         .map_err(|e| format!("{:#}", e))
+                }
+                Entry::User { sender, msg } => app.execute(Addr::unchecked(sender), to_cosmos(msg, &ring, sender).unwrap()).map(conv).map_err(|e| format!("{:#}", e)),
+                Entry::AccessorWrite { contract, write } => {
+                    let mut st = app.contract_storage_mut(&Addr::unchecked(contract));
+                    match write {
+                        WriteOp::Set(k, v) => st.set(k, v),
+                        WriteOp::Remove(k) => st.remove(k),
+                    }
+                    Ok((vec![], None))
                 }
                 Entry::SudoMint { to, coins } => app
                     .sudo(SudoMsg::Bank(cw_multi_test::BankSudo::Mint { to_address: to.clone(), amount: to_coins(coins) }))
